@@ -480,13 +480,13 @@ def run(ctx):
         ctx.broken.append("collation assumption does not hold in this environment: " + "; ".join(probe[:3]))
     run_lang_corpus(ctx, exe, known)
 
-    count = 160 if not ctx.thorough else 1500
+    count = 700 if not ctx.thorough else 6000
     cases = gen_cases(ctx, count)
     ctx.cov["samples"] = [sort_elems_xml(c) + " over " + c["sel"] + " n=%d" % c["n"] for c in cases[8:14]]
     corr, orc = evaluate(ctx, cases, exe, model)
     if (corr or not proved or not model or ctx.broken) and not orc and not ctx.thorough:
         ctx.escalated = True
-        more = gen_cases(ctx, 1200)
+        more = gen_cases(ctx, 3000)
         for c in more:
             c["id"] = "e" + c["id"]
         c2, o2 = evaluate(ctx, more, exe, model)
